@@ -488,31 +488,40 @@ class GraphQLSchema:
     def _validate_field_type_is_same_as_interface_type(
         self, field_type, interface_field_type
     ) -> bool:
-        # If they are the same simple type
+        # If they are the same type
         if field_type == interface_field_type:
             return True
 
-        # If field_type is a nonnull variant of interface_type then it's ok
+        # A non-null field type is valid if its inner type is valid for the
+        # (nullable variant of the) interface type
         if isinstance(field_type, GraphQLNonNull):
             return self._validate_field_type_is_same_as_interface_type(
-                field_type.gql_type, interface_field_type
+                field_type.gql_type,
+                interface_field_type.gql_type
+                if isinstance(interface_field_type, GraphQLNonNull)
+                else interface_field_type,
             )
 
         # If interface says !Null but field is not non null
         if isinstance(interface_field_type, GraphQLNonNull):
             return False
 
-        # If interface says list but field is not the same list
-        # because firt the == condition is false (or else we wouldn't be here)
-        # and field_type isn't a non_null of interface type
-        # then if interface is a list, they aren't the same type
+        # A list field type is valid only for a list interface type whose item
+        # type it honours
+        if isinstance(field_type, GraphQLList):
+            return isinstance(
+                interface_field_type, GraphQLList
+            ) and self._validate_field_type_is_same_as_interface_type(
+                field_type.gql_type, interface_field_type.gql_type
+            )
+
         if isinstance(interface_field_type, GraphQLList):
             return False
 
-        # Then, look at the possible type for the interface
-        interface = self.type_definitions[interface_field_type]
-        if isinstance(interface, GraphQLInterfaceType):
-            return interface.is_possible_type(field_type)
+        # Then, look at the possible types of the interface or the union
+        abstract_type = self.type_definitions.get(interface_field_type)
+        if isinstance(abstract_type, (GraphQLInterfaceType, GraphQLUnionType)):
+            return field_type in abstract_type.possible_types_set
         return False
 
     def _validate_field_follow_interface(
